@@ -414,6 +414,30 @@ pub fn expect_json(exp: &FileExp, recs: &[Rec], regions: &[Loc], observed: &str)
 }
 
 /// Generic implementation-side check: region comparison (+ optionally kinds and oneway flags).
+/// `package a.b; interface|parcelable|enum Name { }` and nothing else (comments allowed)
+pub fn is_bare_item(text: &str) -> bool {
+    use crate::model::lex::{lex, Kind};
+    let lx = lex(text);
+    if lx.unlexable.is_some() {
+        return false;
+    }
+    let k: Vec<Kind> = lx.toks.iter().map(|t| t.kind).collect();
+    if k.len() < 7 || k[0] != Kind::Package {
+        return false;
+    }
+    let mut i = 1;
+    if k[i] != Kind::Ident {
+        return false;
+    }
+    i += 1;
+    while i + 1 < k.len() && k[i] == Kind::Dot && k[i + 1] == Kind::Ident {
+        i += 2;
+    }
+    k[i..] == [Kind::Semi, Kind::Interface, Kind::Ident, Kind::LBrace, Kind::RBrace]
+        || k[i..] == [Kind::Semi, Kind::Parcelable, Kind::Ident, Kind::LBrace, Kind::RBrace]
+        || k[i..] == [Kind::Semi, Kind::Enum, Kind::Ident, Kind::LBrace, Kind::RBrace]
+}
+
 pub fn check_region_case(case: &Case, check_kinds: bool, check_oneway: bool) -> CheckResult {
     let mut r = CheckResult::default();
     let (parse, valid) = match run_project(case) {
@@ -483,6 +507,25 @@ pub fn check_region_case(case: &Case, check_kinds: bool, check_oneway: bool) -> 
                 errs.push(format!(
                     "oneway flags of the methods in the returned tree are {got:?}, expected {want:?}"
                 ));
+            }
+        }
+    }
+    // bystanders: a supporting file that is a bare item (`package x; <kind> Name { }` - no import,
+    // no declaration, no member) gives no rule anything to say, whatever else the project holds
+    // and in whatever order the files are processed
+    for (id, text) in &case.files {
+        if *id != obs_id && is_bare_item(text) {
+            match valid.get(id) {
+                Some(res) => {
+                    if res.ast.is_none() || !res.diagnostics.is_empty() {
+                        errs.push(format!(
+                            "supporting file {id} (`{text}`) must come back with a tree and without diagnostics, got tree={} and {:?}",
+                            res.ast.is_some(),
+                            res.diagnostics.iter().map(super::diag_str).collect::<Vec<_>>()
+                        ));
+                    }
+                }
+                None => errs.push(format!("no result for the supporting file {id}")),
             }
         }
     }
